@@ -327,15 +327,27 @@ def check_flip(ctx: Ctx) -> None:
     ctx.ob("16.4-flip", con, ok, "the flipped steps are the ones added to the perturbed components", node=(add or [wh[0]])[0])
     rets = [s for s in stmts_of(f) if isinstance(s, ast.Return) and isinstance(s.value, ast.Tuple) and dotted(s.value.elts[1]) == dotted(wh[0].targets[0])]
     ctx.ob("16.4-flip", con, len(rets) == 1, "the flipped steps are the ones the quotient divides by", node=(rets or [f])[0], stmt="generator returns the flipped steps")
-    ub = [s for s in stmts_of(f) if isinstance(s, ast.Assign) and dotted(s.targets[0]) == "upper_bounds"]
-    ok = len(ub) == 2
-    if ok:
-        byc = {}
-        for s in ub:
-            conds = [(norm_stmt(cfg.ast[t].test), v) for t, v in branch_conditions(cfg, cfg.node_of(s)) if cfg.kind[t] == "test" and "_normalize" in norm_stmt(cfg.ast[t].test)]
-            byc[conds[0][1] if conds else None] = s
-        ok = True in byc and False in byc and last_attr(byc[True].value) == "normalize_vect" and "get_upper_bounds" in unparse(byc[True].value) and last_attr(byc[False].value) == "get_upper_bounds"
-    ctx.ob("16.4-normalised-bounds", con, ok, "the upper bounds compared with the (normalised) point must be normalised iff the approximator works on normalised inputs", node=(ub or [f])[0])
+    # the bounds the flip compares with, unfolded under each value of the normalisation option
+    from gv.dataflow import SymValues
+    from gv.shapes import specialise
+
+    ok = True
+    ub = []
+    for fact in (True, False):
+        g = specialise(f, {"self._normalize": fact})
+        sv = SymValues(g)
+        wg = [s_ for s_ in stmts_of(g) if isinstance(s_, ast.Assign) and isinstance(s_.value, ast.Call) and last_attr(s_.value) == "where" and len(s_.value.args) == 3 and sv.cfg.has(s_)]
+        if len(wg) != 1:
+            ok = False
+            continue
+        for alt in sv.exprs(wg[0].value.args[0]):
+            calls = [c_ for c_ in ast.walk(alt) if isinstance(c_, ast.Call) and last_attr(c_) in ("get_upper_bounds", "normalize_vect")]
+            getters = [c_ for c_ in calls if last_attr(c_) == "get_upper_bounds"]
+            norms = [c_ for c_ in calls if last_attr(c_) == "normalize_vect" and any(isinstance(x_, ast.Call) and last_attr(x_) == "get_upper_bounds" for x_ in ast.walk(c_.args[0] if c_.args else c_))]
+            if not getters or bool(norms) != fact or (fact and len(norms) != len(getters)):
+                ok = False
+    ub = [s_ for s_ in stmts_of(f) if isinstance(s_, ast.Assign) and dotted(s_.targets[0]) == "upper_bounds"]
+    ctx.ob("16.4-normalised-bounds", con, ok, "the upper bounds compared with the (normalised) point must be normalised iff the approximator works on normalised inputs", node=wh[0], stmt="upper bounds normalised iff inputs are")
 
 
 def run(ctx: Ctx) -> None:
